@@ -581,14 +581,89 @@ func c09Seeds(thorough bool) *explore.Scenario {
 	}
 }
 
+// c09AfterWeak — EnableWeakCiphers is documented not to change the shape of any hello: every spec
+// (randomized: 3 kinds x 2 weight sets x 512 seeds; every fixed parrot) is described before the
+// process-wide switch is thrown and regenerated afterwards. Runs last: the switch cannot be undone.
+var (
+	c09WeakOnce   sync.Once
+	c09WeakGolden = map[string]string{}
+)
+
+func c09AfterWeak() *explore.Scenario {
+	const n = 512
+	half := &tls.Weights{}
+	hv := reflect.ValueOf(half).Elem()
+	for i := 0; i < hv.NumField(); i++ {
+		hv.Field(i).SetFloat(0.5)
+	}
+	wsets := []*tls.Weights{nil, half}
+	key := func(kind string, wi, sN int) string { return fmt.Sprintf("%s|%d|%d", kind, wi, sN) }
+	gen := func(kind string, wi, sN int) string {
+		sp, err := tls.UTLSIdToSpec(c09ID(kind, c09Seed(sN), wsets[wi]))
+		if err != nil {
+			return "error: " + err.Error()
+		}
+		return describeSpec(&sp)
+	}
+	genFixed := func(id tls.ClientHelloID) string {
+		sp, err := tls.UTLSIdToSpec(id)
+		if err != nil {
+			return "error: " + err.Error()
+		}
+		parts := strings.Split(describeSpec(&sp), "|") // Chrome-family parrots shuffle their extensions per call: compared as a multiset
+		sort.Strings(parts)
+		return strings.Join(parts, "|")
+	}
+	return &explore.Scenario{
+		Name: "specs-before-and-after-EnableWeakCiphers",
+		Run: func(x *explore.X) (r explore.Result) {
+			c09WeakOnce.Do(func() {
+				for _, kind := range c09Kinds {
+					for wi := range wsets {
+						for sN := 0; sN < n; sN++ {
+							c09WeakGolden[key(kind, wi, sN)] = gen(kind, wi, sN)
+						}
+					}
+				}
+				for _, p := range ParrotIDs() {
+					c09WeakGolden["fixed|"+p.Name] = genFixed(p.ID)
+				}
+				weakOnce.Do(tls.EnableWeakCiphers)
+			})
+			ki := x.Choose("kind", len(c09Kinds)+1)
+			if ki == len(c09Kinds) {
+				for _, p := range ParrotIDs() {
+					if got := genFixed(p.ID); got != c09WeakGolden["fixed|"+p.Name] {
+						r.Violate("C09|changed-by-EnableWeakCiphers|fixed", "%s: the spec differs after EnableWeakCiphers() at %s", p.Name, firstDiffStr(c09WeakGolden["fixed|"+p.Name], got))
+					}
+					r.Count("weak_compared", 1)
+				}
+				r.Obs, r.Nontrivial, r.Class = "fixed", true, "fixed"
+				return
+			}
+			kind := c09Kinds[ki]
+			wi := x.Choose("weights", len(wsets))
+			for sN := 0; sN < n; sN++ {
+				if got := gen(kind, wi, sN); got != c09WeakGolden[key(kind, wi, sN)] {
+					r.Violate("C09|changed-by-EnableWeakCiphers|randomized", "id=%s seed=%d weights#%d: the spec generated from the same id differs after EnableWeakCiphers() at %s", kind, sN, wi, firstDiffStr(c09WeakGolden[key(kind, wi, sN)], got))
+					break
+				}
+				r.Count("weak_compared", 1)
+			}
+			r.Obs, r.Nontrivial, r.Class = "randomized", true, fmt.Sprintf("%s|%d", kind, wi)
+			return
+		},
+	}
+}
+
 func init() {
 	register(&Prop{ID: "C09", Level: "exploration", Variant: "A",
 		Scenarios: func(thorough bool) []*explore.Scenario {
-			return []*explore.Scenario{c09Corners(thorough), c09Seeds(thorough)}
+			return []*explore.Scenario{c09Corners(thorough), c09Seeds(thorough), c09AfterWeak()}
 		},
 		Run: func(c *explore.Check, thorough bool) {
-			c.Rule = fmt.Sprintf("(1) all 2^%d vectors of Weights with every field 0 or 1 (fields discovered by reflection; a coin with weight 0/1 is forced and still draws, so this enumerates every combination of optional features) x {Randomized, Randomized-ALPN, Randomized-NoALPN} x 1 (4) seeds; (2) default and all-0.5 weights x seeds 0..2^13-1 (2^18-1) x the three kinds. Each: UTLSIdToSpec twice from fresh copies of the id (equal fingerprints), consistency clauses (suite classes ordered 1.3 / 1.2-only / older, no duplicates; TLS 1.3: no RC4, RSA-PSS, padding, supported_versions = [max..min], key shares; TLS 1.2: no 1.3 suites/extensions/hybrid groups; ALPS only with ALPN and TLS 1.3; every share group listed, every listed hybrid group shared), corner clauses (each feature present iff its weight is 1 or a TLS 1.3 rule forces it; classical key shares as configured), suite removal keeps the first suite and yields a subsequence of the weight-0 list; a subset is also built through a UConn with Config.NextProtos {nil, [h3 x]} (same extension types and suites as UTLSIdToSpec, ALPN carries the configured protocols, wire form parses and obeys the cross-extension rules). distinct = set of spec shapes per chunk", len(weightFields()))
+			c.Rule = fmt.Sprintf("(1) all 2^%d vectors of Weights with every field 0 or 1 (fields discovered by reflection; a coin with weight 0/1 is forced and still draws, so this enumerates every combination of optional features) x {Randomized, Randomized-ALPN, Randomized-NoALPN} x 1 (4) seeds; (2) default and all-0.5 weights x seeds 0..2^13-1 (2^18-1) x the three kinds. Each: UTLSIdToSpec twice from fresh copies of the id (equal fingerprints), consistency clauses (suite classes ordered 1.3 / 1.2-only / older, no duplicates; TLS 1.3: no RC4, RSA-PSS, padding, supported_versions = [max..min], key shares; TLS 1.2: no 1.3 suites/extensions/hybrid groups; ALPS only with ALPN and TLS 1.3; every share group listed, every listed hybrid group shared), corner clauses (each feature present iff its weight is 1 or a TLS 1.3 rule forces it; classical key shares as configured), suite removal keeps the first suite and yields a subsequence of the weight-0 list; a subset is also built through a UConn with Config.NextProtos {nil, [h3 x]} (same extension types and suites as UTLSIdToSpec, ALPN carries the configured protocols, wire form parses and obeys the cross-extension rules); (3) last, 3 kinds x 2 weight sets x seeds 0..511 and every fixed parrot described before and after the process-wide EnableWeakCiphers() (documented not to change any hello's shape): equal. distinct = set of spec shapes per chunk", len(weightFields()))
 			c.Assumptions = []string{"seeds are enumerated over a range, not all 2^256: the corner vectors cover the feature decisions exhaustively, permutations and fractional removal coins are covered only as far as the seed range reaches", "suite classes are derived from the IANA suite names"}
-			runAll(c, []*explore.Scenario{c09Corners(thorough), c09Seeds(thorough)}, 0)
+			runAll(c, []*explore.Scenario{c09Corners(thorough), c09Seeds(thorough), c09AfterWeak()}, 0)
 		}})
 }
